@@ -27,8 +27,8 @@ type mutexState struct {
 	// writersWaiting: blocked Lock calls. Go's RWMutex lets a pending writer exclude NEW readers
 	// (so a recursive RLock deadlocks when a writer arrives in between).
 	writersWaiting int
-	relVC   vclock // released by the last writer unlock (and WaitGroup.Done / Once)
-	readVC  vclock // released by reader unlocks
+	relVC          vclock // released by the last writer unlock (and WaitGroup.Done / Once)
+	readVC         vclock // released by reader unlocks
 }
 
 func (ex *Exec) freshInternal(label string, s Sort) *Term {
